@@ -33,7 +33,7 @@ impl TopicName {
     pub fn try_parse(unparsed: &str) -> Option<Self> {
         // Check that the length of the input is at least as long as something that contains
         // a valid topic name.
-        if unparsed.len() <= PROJECT_PREFIX_LEN + TOPIC_PREFIX_LEN + 2 {
+        if unparsed.len() < PROJECT_PREFIX_LEN + TOPIC_PREFIX_LEN + 2 {
             return None;
         }
 
@@ -48,7 +48,18 @@ impl TopicName {
 
         // Extract the topic ID
         let start = PROJECT_PREFIX_LEN + project_id.len() + TOPIC_PREFIX_LEN;
+
+        // Check that the project ID is followed by the topic prefix.
+        if unparsed.get(PROJECT_PREFIX_LEN + project_id.len()..start)? != TOPIC_PREFIX {
+            return None;
+        }
+
         let topic_id = unparsed.get(start..).map(|s| s.trim_matches('/'))?;
+
+        // Neither ID may be empty, otherwise the formatted name would not parse.
+        if project_id.is_empty() || topic_id.is_empty() {
+            return None;
+        }
 
         Some(TopicName {
             project_id: project_id.into(),
